@@ -5,9 +5,9 @@ ROOT = os.path.dirname(os.path.dirname(os.path.abspath(__file__)))
 
 A = "harness (cbverif): Tracked-history interpreter"
 CHECKS = {
- "C01": ("exploration", "3.1", "reference-model PBT: exhaustive single-step enumeration over every (capacity, front position, length) layout x op x argument class, plus seeded proptest histories; independent bounded-deque model over element identities",
+ "C01": ("exploration", "3.1", "reference-model PBT: exhaustive single-step enumeration over every (capacity, front position, length) layout x op x argument class, a sparse boundary space for capacities up to 1000, seeded proptest histories; independent bounded-deque model over element identities; plus the byte-stream engine and a VecDeque-model engine over byte buffers at capacities around 2^32",
          "Every mutator x every argument class from every layout of capacities 0..=8 (exhaustively) and random histories over 20 capacities up to 1000 agree with an independent bounded-deque model after every step, in an assertion-checked and a release build."),
- "C02": ("exploration", "3.2", "reference-model PBT over element identities (exhaustive layouts x the four insertion calls, all fillings/routes; proptest histories)",
+ "C02": ("exploration", "3.2", "reference-model PBT over element identities (exhaustive layouts x the four insertion calls, all fillings/routes; proptest histories); counter-model engines over zero-sized elements at extreme capacities (nearly empty and full buffers) and a VecDeque-model engine over byte buffers at capacities around 2^32",
          "All four insertion calls from every layout (all construction routes and fillings): the returned element is compared by identity, not by value."),
  "C03": ("exploration", "3.3", "stateful PBT with a per-element ledger (created / where / destroyed) balanced after every step and after the final drop",
          "Every element has exactly one owner at every step and is destroyed exactly once; includes every consumption script of owning iterators and drains in the small scope."),
@@ -17,17 +17,17 @@ CHECKS = {
          "Every destructor call inside every element-destroying operation is made to panic once; afterwards no element has been destroyed twice and the buffer is a valid, usable sequence."),
  "C06": ("fault_enumeration", "3.6", "fault-injection enumeration: k-th clone / closure / iterator step / comparison panics; ledger oracle for leaks and double drops",
          "Every user-code invocation inside every operation that runs user code is made to panic once; afterwards the buffer is valid and, after the final drop, every element ever created has been destroyed exactly once."),
- "C07": ("exploration", "3.7", "exhaustive accessor agreement by element address and identity; writes through every mutable accessor followed by a full read-back",
+ "C07": ("exploration", "3.7", "exhaustive accessor agreement by element address and identity; writes through every mutable accessor followed by a full read-back; sparse boundary space for capacities up to 1000; VecDeque-model engine over byte buffers at capacities around 2^32",
          "All accessors agree on address and identity for every position 0..=len+1 and usize::MAX from every layout; a write through each mutable accessor changes exactly that position."),
  "C08": ("exploration", "3.8", "exhaustive next/next_back scripts against a double-ended queue model, exact len/size_hint at every step; proptest scripts over clone/nth/nth_back/rev/fold/count/last",
          "Every interleaving of next/next_back of length selected+2 over every range spelling from every layout, for iter, iter_mut, range, range_mut, into_iter and the Default iterators."),
- "C09": ("exploration", "3.9", "exhaustive drain scripts (range x next/next_back script x drop) against the model by identity",
+ "C09": ("exploration", "3.9", "exhaustive drain scripts (range x next/next_back/adaptor script x drop) against the model by identity; sparse boundary space for larger capacities; compile-time must-reject witnesses that a Drain cannot be duplicated",
          "Every range in every RangeBounds spelling x every consumption script from every layout; yielded ids, exact len, remaining contents and destruction of the un-yielded part are checked."),
- "C10": ("exploration", "3.10", "exhaustive drain scripts ending in mem::forget, validity predicate + follow-up history + ledger",
+ "C10": ("exploration", "3.10", "exhaustive drain scripts (including skipping consumers that run past either end) ending in mem::forget, validity predicate + follow-up history + ledger; zero-sized element engine; compile-time must-reject witnesses that a Drain cannot be duplicated",
          "The drain is forgotten after every prefix of every script; the buffer must stay a valid subset of the original contents minus the yielded elements, keep working, and nothing is ever destroyed twice."),
- "C11": ("exploration", "3.11", "exhaustive argument enumeration (indices 0..=N+1, usize::MAX, every bound pair) against the model's must-panic predicate, both directions; watchdog for termination",
+ "C11": ("exploration", "3.11", "exhaustive argument enumeration (indices 0..=N+1, usize::MAX, every bound pair, out-of-range skip counts) against the model's must-panic predicate, both directions; watchdog for termination; byte-stream engine; every by-reference operation on 4 MiB boxed buffers in an unoptimised build on 2 MiB stacks against a VecDeque model",
          "Every public operation with every index / bound combination: panics exactly when documented, state unchanged after a documented panic; termination observed under a watchdog."),
- "C12": ("exploration", "3.12", "reference-model PBT with ledger identity: moves keep ids, clones have fresh ids with the right origin, independent ownership",
+ "C12": ("exploration", "3.12", "reference-model PBT with ledger identity: moves keep ids, clones have fresh ids with the right origin, independent ownership; non-fused generated iterators; sparse boundary space for capacities up to 1000; 4 MiB boxed buffers in an unoptimised build",
          "Constructors and conversions for every source length 0..=2N+1 and every source/destination layout."),
  "C20": ("exploration", "3.20", "exhaustive relocation counting: surviving element identities whose address changed, against the documented bound",
          "Relocations are counted through element addresses before and after every listed operation from every layout."),
@@ -36,14 +36,14 @@ CHECKS = {
  "C14": ("exploration", "3.14", "reference-model PBT with a byte-queue model: exhaustive single and double steps with every size class from every layout, unoccupied bytes filled adversarially; proptest histories",
          "write/read/fill_buf/consume/flush (and the provided methods users call) with every length class from every layout of capacities 0..=8, then random histories up to capacity 256."),
  "C15": ("exploration", "3.15", "grammar-generated client programs compiled with rustc against the current tree; differential against the same program over VecDeque / arrays / slices plus the expectation table",
-         "The quantifier is over programs: 293 witness programs (borrow held, outlive, variance, auto traits, const contexts, bound-free impls) are generated and compiled; must-reject programs must fail for a borrow/lifetime/trait reason while their must-accept twins compile."),
- "C16": ("exploration", "3.16", "differential PBT: embedded-io / embedded-io-async calls vs std::io calls on a twin buffer in the same state, under the three feature builds; async polled once",
+         "The quantifier is over programs: about 360 witness programs (borrow held, outlive, variance, auto traits, single ownership, const contexts, bound-free impls) are generated and compiled; must-reject programs must fail for a borrow/lifetime/trait reason while their must-accept twins compile."),
+ "C16": ("exploration", "3.16", "differential PBT: embedded-io / embedded-io-async calls vs std::io calls on a twin buffer in the same state (counts, bytes, contents, physical layout), under the three feature builds; async polled once; for builds of the crate without std, trace digests of the same generated histories compared across builds",
          "The C14 case space is replayed through the embedded-io traits with a std::io twin; counts, bytes, fill_buf slices and contents must be identical, never Err, never Pending."),
- "C17": ("exploration", "3.17", "PBT with a counting global allocator around every single crate call, in three feature configurations; core-only sysroot builds for the no_std sentence",
+ "C17": ("exploration", "3.17", "PBT with a counting global allocator around every single crate call (including provided std::io methods and their error paths), in three feature configurations; core-only sysroot builds and a freestanding no-allocator program with a seeded model-based self-check for the no_std sentence",
          "Every operation (including creation, each step and the drop of iterators/drains) performs zero allocations in builds of the crate with {std}, {} and {alloc}; the library also builds against a core-only and a core+alloc sysroot."),
  "C18": ("exploration", "3.18", "differential PBT across builds: per-unit trace digests of the complete C01-C12/C20 case spaces, stable default build vs nightly + unstable feature; the unstable build also runs every oracle",
          "Same generated cases (pure function of the seed) in both builds; results, contents, panic flags, lifecycle events and injected-fault outcomes must be identical."),
- "C19": ("exploration", "3.19", "counter-model PBT over a drop-counting zero-sized element at 13 extreme capacities, assertion/overflow-checked and release builds",
+ "C19": ("exploration", "3.19", "counter-model PBT over a drop-counting zero-sized element at 13 extreme capacities and over full buffers of a destructor-free zero-sized element at 7 extreme capacities, assertion/overflow-checked and release builds; capacity-independence differential",
          "Front positions just below N (where position arithmetic exceeds the machine word) and near 0, every operation whose cost does not depend on N, boundary arguments and every bound pair."),
 }
 
@@ -77,7 +77,7 @@ def main():
             "add_only": True,
         },
         "engines": [
-            {"name": "cbverif", "path": "harness", "serves_properties": [p for p in sorted(CHECKS) if p != "C15"], "kind_free_text": "Rust harness: enumerative + proptest generators; interpreter with reference model and element ledger (C01-C12, C20), pair-comparison engine (C13), byte-I/O engine (C14, C16), counting-allocator engine (C17), zero-sized/extreme-capacity engine (C19), cross-build digests (C18); driven by ./check (python)"},
+            {"name": "cbverif", "path": "harness", "serves_properties": [p for p in sorted(CHECKS) if p != "C15"], "kind_free_text": "Rust harness: enumerative + proptest generators; interpreter with reference model and element ledger (C01-C12, C20), pair-comparison engine (C13), byte-I/O engine (C14, C16), counting-allocator engine (C17), zero-sized/extreme-capacity engines (C19), large-boxed-buffer and 2^32-capacity engines, embedded-io trace engine, cross-build digests (C18); plus the freestanding no-allocator program in /verif/freestanding; driven by ./check (python)"},
             {"name": "c15", "path": "lib/c15.py", "serves_properties": ["C15"], "kind_free_text": "witness-program generator + rustc as the judge"},
         ],
         "checks": checks,
